@@ -302,6 +302,8 @@ pub fn run(tier: &str) -> i32 {
     }
     huge_tables(&mut rep, thorough);
     adapters(&mut rep);
+    construction_routes(&mut rep);
+    stamp_wrap(&mut rep, thorough);
     rep.set("explanation".into(), json!("states = odometer states (1176 positions x product of range sizes) the real iterator walks through; transitions = next() calls made; each configuration's complete yield is compared as a multiset per position with the reference enumerator"));
     rep.bound("ranges are subsets of an 8-combo alphabet built to collide, plus prefixes/suffixes of the 1326 combos; not all 2^1326 ranges");
     rep.bound(if thorough { "flops: 8 structured flops for the subset families, all 22,100 for the single-combo/full-alphabet family" } else { "flops: 8 structured flops (all 22,100 in thorough)" });
@@ -353,6 +355,7 @@ fn huge_tables(rep: &mut Report, thorough: bool) {
             continue;
         }
         n_tables += 1;
+        let _h = vlib::report::horizon("C02", "huge-tables", format!("{} players x {} combos: the first {} showdowns", n, size, k_take), json!({"players": n, "size": size}), k_take as u64 * 10_000);
         let rs = ranges.clone();
         // bounded work: the take() below can only be slow if a long blocked run precedes the first deal, which the
         // construction above excludes for all players but the last two
@@ -434,6 +437,7 @@ fn adapters(rep: &mut Report) {
     let outs = par_map(cfgs.len(), |i| {
         let c = cfgs[i].clone();
         let deck = deck_without(&c.flop);
+        let _h = vlib::report::horizon("C02", "iterator-adapters", format!("{} adapters", c.key()), json!({"config": c.to_json(), "exact_prob": true}), 1176 * c.pi().max(1) * 20);
         catch(move || {
             let sig = |sd: &espada::evaluator::Showdown| -> (Option<usize>, u128, u32) {
                 let r = reduce(sd, &c.flop, &deck);
@@ -512,7 +516,153 @@ pub fn replay(case: &Value) -> Value {
         return json!({"note": "huge-table cases are re-run by ./check C02 quick (sub-check huge-tables)", "case": case});
     }
     let c = Config::from_json(&case["config"]);
+    if let Some(w) = case.get("window") {
+        let (from, to) = (w[0].as_u64().unwrap() as usize, w[1].as_u64().unwrap() as usize);
+        let (bad, calls, expected) = vlib::deals::check_window(&c, from, to, true);
+        return json!({"config": c.key(), "window": [from, to], "legal_deals_in_model": expected, "next_calls": calls, "discrepancy": bad});
+    }
+    if case.get("routes").is_some() {
+        let (problems, n) = check_routes(&c);
+        return json!({"config": c.key(), "routes_tried": n, "routes_that_differ": problems.into_iter().map(|(a, b)| json!({"route": a, "observed": b})).collect::<Vec<_>>()});
+    }
     let exact = case["exact_prob"].as_bool().unwrap_or(true);
     let (bad, calls, expected) = check_config(&c, exact);
     json!({"config": c.key(), "legal_deals_in_model": expected, "next_calls": calls, "discrepancy": bad})
+}
+
+
+fn check_routes(c: &Config) -> (Vec<(String, Value)>, u64) {
+    use espada::evaluator::FlopExhaustiveEvaluator;
+    use espada::hand_range::HandRange;
+    use vlib::notation::weight_suffix;
+    use vlib::report::catch;
+    let c = c.clone();
+    let _h = vlib::report::horizon("C02", "construction-routes", format!("{} construction routes", c.key()), json!({"config": c.to_json(), "exact_prob": true, "routes": true}), 1176 * c.pi().max(1) * 12);
+    let (model_bad, _, _) = check_config(&c, true);
+    if let Some(b) = model_bad {
+        return (vec![("collect() of distinct items".to_string(), b)], 0u64);
+    }
+    let deck = deck_without(&c.flop);
+    let r = catch(move || {
+        let run = |ranges: &Vec<HandRange>| -> Vec<(Option<usize>, u128, u32)> {
+            let mut v: Vec<(Option<usize>, u128, u32)> = FlopExhaustiveEvaluator::new(&board_opt(&c.flop), ranges)
+                .into_iter()
+                .map(|sd| {
+                    let r = reduce(&sd, &c.flop, &deck);
+                    (r.pos_unordered(), r.combo_key(), r.prob.to_bits())
+                })
+                .collect();
+            v.sort();
+            v
+        };
+        let plain = c.hand_ranges();
+        let base = run(&plain);
+        let mut routes: Vec<(String, Vec<HandRange>)> = vec![];
+        // every combo first with another weight, then (twice) with its own
+        routes.push(("collect() from an iterator that repeats every combo (another weight first, the final one twice)".into(), c.ranges.iter().map(|r| {
+            let mut items: Vec<(espada::hand_range::CardPair, f32)> = vec![];
+            for (cb, _) in r { items.push((cb.card_pair(), 0.125)); }
+            for (cb, w) in r { items.push((cb.card_pair(), *w)); }
+            for (cb, w) in r.iter().rev() { items.push((cb.card_pair(), *w)); }
+            items.into_iter().collect::<HandRange>()
+        }).collect()));
+        routes.push(("collect() with the first combo repeated at the end".into(), c.ranges.iter().map(|r| {
+            let mut items: Vec<(espada::hand_range::CardPair, f32)> = r.iter().map(|(cb, w)| (cb.card_pair(), *w)).collect();
+            if let Some(f) = items.first().cloned() { items.push(f); }
+            items.into_iter().collect::<HandRange>()
+        }).collect()));
+        routes.push(("collect() in reverse order".into(), c.ranges.iter().map(|r| r.iter().rev().map(|(cb, w)| (cb.card_pair(), *w)).collect::<HandRange>()).collect()));
+        routes.push(("parse of the comma-joined combos (each written twice)".into(), c.ranges.iter().map(|r| {
+            let t: Vec<String> = r.iter().chain(r.iter()).map(|(cb, w)| format!("{}{}", cb.text(), weight_suffix(w.to_bits()))).collect();
+            t.join(",").parse::<HandRange>().unwrap()
+        }).collect()));
+        routes.push(("to_string() then parse".into(), plain.iter().map(|r| r.to_string().parse::<HandRange>().unwrap()).collect()));
+        routes.push(("clone()".into(), plain.iter().map(|r| r.clone()).collect()));
+        routes.push(("collect() of the (pair, weight) items of &range".into(), plain.iter().map(|r| r.into_iter().map(|(k, w)| (*k, *w)).collect::<HandRange>()).collect()));
+        if c.ranges.iter().all(|r| r.iter().all(|(_, w)| *w == 1.0)) {
+            routes.push(("FromIterator<CardPair> with every combo twice".into(), c.ranges.iter().map(|r| r.iter().chain(r.iter()).map(|(cb, _)| cb.card_pair()).collect::<HandRange>()).collect()));
+        }
+        let mut problems: Vec<(String, String)> = vec![];
+        let n_routes = routes.len() as u64;
+        for (name, ranges) in routes {
+            if ranges.iter().zip(plain.iter()).any(|(a, b)| a != b) {
+                // the route does not lead to equal contents: not this property's business (C06/C17 own that)
+                problems.push((name.clone(), "the route leads to a range that is != the plain one".into()));
+                continue;
+            }
+            let got = run(&ranges);
+            if got != base {
+                let extra = got.iter().filter(|x| base.binary_search(x).is_err()).count();
+                let missing = base.iter().filter(|x| got.binary_search(x).is_err()).count();
+                problems.push((name, format!("{} showdowns instead of {} ({} not in the plain run, {} of the plain run missing, the rest differ in multiplicity)", got.len(), base.len(), extra, missing)));
+            }
+        }
+        (problems, n_routes)
+    });
+    match r {
+        Err(e) => (vec![("a construction route".to_string(), json!({"panic": e}))], 0),
+        Ok((problems, n)) => (problems.into_iter().map(|(a, b)| (a, json!(b))).collect(), n),
+    }
+}
+
+/// The enumeration is a function of the ranges' CONTENTS (card_pairs()): the same contents reached by other public
+/// construction routes - collect() from an iterator that repeats combos (the last weight wins, as in any map), collect()
+/// in reverse, parsing the text, clone(), FromIterator<CardPair> for all-ones ranges, collect() of a parsed range's
+/// own (pair, weight) items - must give the same multiset of (position, combos, probability) as the plain route, and
+/// the plain route is compared with M-deals.
+fn construction_routes(rep: &mut Report) {
+    let mut cfgs: Vec<Config> = vec![];
+    for f in [FLOPS8[2], FLOPS8[3]] {
+        let a = alphabet(&f);
+        for (m0, m1) in [(0b1u32, 0u32), (0b110, 0), (0xff, 0), (0b1011, 0b110100), (0xff, 0b10011), (0b11, 0xff)] {
+            let mut rs = vec![subset_range(&a, m0, 0, &DYADIC)];
+            if m1 != 0 {
+                rs.push(subset_range(&a, m1, 1, &DYADIC));
+            }
+            cfgs.push(cfg(f, rs));
+        }
+        // all-ones ranges (the FromIterator<CardPair> route applies)
+        cfgs.push(cfg(f, vec![subset_range(&a, 0b111, 0, &[1.0, 1.0, 1.0]), subset_range(&a, 0b11000, 1, &[1.0, 1.0, 1.0])]));
+        // a wide range
+        cfgs.push(cfg(f, vec![first_n(70), subset_range(&a, 0b101, 1, &DYADIC)]));
+    }
+    let n_cfg = cfgs.len();
+    let outs = par_map(n_cfg, |i| check_routes(&cfgs[i]));
+    let mut n_routes = 0u64;
+    for (i, (problems, n)) in outs.into_iter().enumerate() {
+        n_routes += n;
+        for (route, what) in problems {
+            rep.violation(Violation {
+                key: format!("{} built by {}", cfgs[i].key(), route),
+                sub: "construction-routes".into(),
+                case: json!({"config": cfgs[i].to_json(), "exact_prob": true, "routes": true}),
+                expected: json!("the same multiset of (position, combos, probability) as ranges with equal contents built by collect() of distinct items"),
+                observed: what,
+            });
+        }
+    }
+    rep.sub("construction-routes", "16 configurations (1-2 players, subsets of the colliding alphabet, all-ones ranges, a 70-combo range) x up to 8 public routes to EQUAL range contents (collect() with repeated combos, reversed, parse with every combo written twice, to_string+parse, clone, re-collect of &range, FromIterator<CardPair> with repeats): each route's complete yield equals the plain route's as a multiset; the plain route is compared with M-deals", n_routes, n_routes, false, json!({"configurations": n_cfg}));
+}
+
+
+/// long enumerations inside one iterator: range sizes at which an 8- or 16-bit per-deal counter comes round
+fn stamp_wrap(rep: &mut Report, thorough: bool) {
+    let cfgs = vlib::deals::stamp_wrap_configs(FLOPS8[3], false);
+    let (from, to) = (0usize, if thorough { 6usize } else { 3 });
+    let outs = par_map(cfgs.len(), |i| vlib::deals::check_window(&cfgs[i], from, to, true));
+    let mut states = 0u64;
+    let mut calls = 0u64;
+    let mut nontrivial = 0u64;
+    for (i, (bad, c, expected)) in outs.into_iter().enumerate() {
+        states += (to - from) as u64 * cfgs[i].pi();
+        calls += c;
+        if expected > 0 {
+            nontrivial += 1;
+        }
+        if let Some(b) = bad {
+            rep.violation(Violation { key: format!("{} scope=positions {}..{}", cfgs[i].key(), from, to), sub: "stamp-wrap".into(), case: json!({"config": cfgs[i].to_json(), "exact_prob": true, "window": [from, to]}), expected: json!({"legal_deals": expected}), observed: b });
+        }
+    }
+    rep.machine(states, calls, cfgs.len() as u64);
+    rep.sub("stamp-wrap", "two players: one combo whose cards occur nowhere else plus x (and x+1) other combos, against y combos, for EVERY factorisation x*y of 254, 255, 256, 65534, 65535 and 65536 that fits the deck; the evaluator scoped to the first 3 (thorough: 6) positions against M-deals: up to 196,608 deals inside one iterator, sizes at which an 8- or 16-bit per-deal counter, stamp or index comes round", cfgs.len() as u64, nontrivial, false, json!({"configurations": cfgs.len(), "odometer_states": states, "next_calls": calls}));
 }
